@@ -550,8 +550,16 @@ class SimNet:
             elif (side, sid) not in self.written and peer_initiated:
                 outcome = "skipped"
             else:
-                self.call(ep, "reset_stream", sid, op.get("code", 7))
-                self.reset_by_sender.add((side, sid))
+                try:
+                    self.call(ep, "reset_stream", sid, op.get("code", 7))
+                    self.reset_by_sender.add((side, sid))
+                except ApiRaised as ar:
+                    # a peer-initiated stream that has already finished in both directions is
+                    # forgotten by the connection; the documented answer is ValueError
+                    if peer_initiated and isinstance(ar.exc, ValueError):
+                        outcome = "rejected-valueerror"
+                    else:
+                        raise
                 ep.send_closed.add(sid)
         elif kind == "stop":
             if sid in ep.known_streams:
